@@ -657,19 +657,23 @@ def ip_norm(growth):
     return out
 
 
-def ip_run(root, steps, argv=()):
-    """the steps as main() runs of one process, in a world of their own -> [[stdout, normalised growth]...]"""
+def ip_run(root, steps, argv=(), fresh=False):
+    """the steps as main() runs of one process, in a world of their own -> [[stdout, normalised growth]...];
+    fresh: each step in its own child forked from a process that has imported dippy and decided nothing"""
     w = ip_world(root)
     try:
         final = [{"k": "main", "stdin": build_input(st["cls"], st["mode"], w["cwds"][st["K"]])} for st in steps]
         job = {"src": os.path.join(lib.REPO, "src"), "argv": list(argv), "history": [], "final": final, "snapshot": False,
                "watch": [os.path.join(w["logs"], x) for x in IP_WATCH]}
+        if fresh:
+            job = {"src": job["src"], "argv": job["argv"], "forkpool": final, "watch": job["watch"]}
         env = {"PATH": "/usr/bin:/bin", "HOME": w["home"], "PYTHONHASHSEED": "0"}
         p = subprocess.run([PY, WORKER18], input=json.dumps(job).encode(), capture_output=True, env=env, cwd=w["home"], timeout=300)
         if p.returncode != 0:
             raise RuntimeError("worker failed: " + p.stderr.decode("utf-8", "replace")[-1500:])
         r = json.loads(p.stdout.decode())
-        return [[a.replace(w["dir"], "{W}"), ip_norm(g)] for a, g in zip(r["answers"], r["growth"])], w["logs"]
+        pairs = r["answers"] if fresh else zip(r["answers"], r["growth"])
+        return [[a.replace(w["dir"], "{W}"), ip_norm(g)] for a, g in pairs], w["logs"]
     finally:
         shutil.rmtree(w["dir"], ignore_errors=True)
 
@@ -835,7 +839,16 @@ def inproc_histories(out, model, root, tier, rng, xcheck, replay=None):
         for st in h:
             keys.setdefault(json.dumps(st, sort_keys=True), st)
     with cf.ThreadPoolExecutor(max_workers=12) as ex:
-        fresh = dict(zip(keys, ex.map(lambda st: ip_run(root, [st])[0][0], keys.values())))
+        # fresh effects: forked children in 6 worlds; every 10th step also in a really fresh interpreter
+        ks = list(keys)
+        parts = [ks[j::6] for j in range(6)]
+        fresh = {}
+        for part, res in zip(parts, ex.map(lambda part: ip_run(root, [keys[k] for k in part], fresh=True)[0], parts)):
+            fresh.update(zip(part, res))
+        for k, res in zip(ks[::10], ex.map(lambda k: ip_run(root, [keys[k]])[0][0], ks[::10])):
+            if res != fresh[k]:
+                out.violations.append({"kind": "fresh-nondeterministic", "what": "a fresh interpreter and a child forked before any decision differ",
+                                       "inproc": [keys[k]], "a": res, "b": fresh[k], "signature_text": "inproc-fresh:" + k})
         runs = list(ex.map(lambda h: ip_run(root, h), hists))
     for h, (res, logs) in zip(hists, runs):
         out.case("inproc:" + json.dumps(h, sort_keys=True))
